@@ -150,7 +150,7 @@ def gen_run(rng, stop=None, **over):
     op = Op({'_op': 'run', 'solver': 'ocp', **problem_kv(p), **{k: kvvec(v) for k, v in st.items()},
              'maxiter': str(rng.choice([0, 1, 2, 3, 5, 20, 60])),
              'tol': f2h(rng.choice([1e-8, 1e-8, 1e-3, 1e-1, 10.0, 0.0])),
-             'crit': str(crit), 'maxnp': str(rng.choice([1, 2, 10])),
+             'crit': str(crit), 'maxnp': str(rng.choice([0, 1, 2, 10])),
              'overwrite': str(rng.randint(0, 1)),
              'gnint': str(rng.choice([0, 1, 3, 2])), 'gnsticky': str(rng.randint(0, 1)),
              'resetgn': str(rng.randint(0, 1)), 'chol': str(rng.randint(0, 1)),
